@@ -1049,6 +1049,8 @@ class Interp:
                         out.append((False, a.state))
                 continue
             t = self.domain.truth(r.value)
+            if t == "TF" and os.environ.get("TTSA_TRACE_FORKS"):
+                print("FORK", fr.name, getattr(test, "lineno", "?"), norm(test)[:80], "value", str(r.value)[:160], "operands", [str(x.value)[:100] for n_ in ast.walk(test) if isinstance(n_, ast.Name) for x in self.eval(n_, r.state, fr)])
             if t in ("T", "TF"):
                 s2 = self.refine(test, r.state, fr, True)
                 if s2 is not None:
@@ -1857,7 +1859,7 @@ class Interp:
                 env_locals.append((name_, v_, None))
         for name_, v_, _ in env_locals:
             entry = entry.set(fr.local(name_), v_)
-        key = (id(func), entry, tuple(sorted((k, repr(v)) for k, v in argvals.items())), fr.self_key)
+        key = (id(func), entry, tuple(sorted((k, repr(v)) for k, v in argvals.items())), fr.self_key, tuple(sorted(fr.cellrefs.items())))
         if key in self.in_progress:
             return [Result(r.kind, r.value, State(r.state.items | caller_locals, r.state.log)) for r in self.summaries.get(key, [])]
         cached = self.round_cache.get(key)
